@@ -125,6 +125,11 @@ func (br *botRunner) UpdateTableState(table *pokertable.Table) error {
 		return nil
 	}
 
+	// the status becomes playing before the first hand state is published
+	if gs == nil {
+		return nil
+	}
+
 	// Getting player index in game
 	gamePlayerIdx := table.GamePlayerIndex(br.playerID)
 
